@@ -35,7 +35,7 @@ Definition get_form (r : req) : req :=
   match r with
   | Nice _ => Nice None
   | Ionice _ _ => Ionice None None
-  | Affinity _ => Affinity None
+  | Affinity _ | AffinityIt _ _ => Affinity None
   | Rlimit res _ | RlimitScalar res _ => Rlimit res None
   end.
 
@@ -47,7 +47,7 @@ Definition spec_get (pid : Z) (r : req) (k : kernel) : option (outcome resv) :=
     match r with
     | Nice _ => Some (Val (RInt (p_nice p)))
     | Ionice _ _ => Some (Val (RPair (reported_ioprio k p / 8192) (reported_ioprio k p mod 8192)))
-    | Affinity _ => Some (Val (RList (p_mask p)))
+    | Affinity _ | AffinityIt _ _ => Some (Val (RList (p_mask p)))
     | Rlimit res _ | RlimitScalar res _ =>
       if res_ok res then
         match nth_error (p_rlim p) (Z.to_nat res) with
@@ -60,6 +60,16 @@ Definition spec_get (pid : Z) (r : req) (k : kernel) : option (outcome resv) :=
 
 Definition all_in (cpus el : list Z) : bool := forallb (fun c => memz c el) cpus.
 Definition none_in (cpus el : list Z) : bool := forallb (fun c => negb (memz c el)) cpus.
+
+Definition spec_aff_set (pid : Z) (p : proc) (cpus : list Z) (k : kernel) : option (outcome resv * kernel) :=
+  match cpus with
+  | [] => Some (Val RNone, kupd pid (set_mask (p_elig p)) k)
+  | _ =>
+    if all_in cpus (p_elig p)     (* eligible CPUs, duplicates allowed: exactly that set *)
+    then Some (Val RNone, kupd pid (set_mask (filter (fun c => memz c cpus) (p_elig p))) k)
+    else if none_in cpus (p_elig p) then Some (Exc ValueError, k)   (* only nonexistent / ineligible CPUs *)
+    else None
+  end.
 
 Definition spec_req (pid : Z) (r : req) (k : kernel) : option (outcome resv * kernel) :=
   match kget pid k with
@@ -84,13 +94,12 @@ Definition spec_req (pid : Z) (r : req) (k : kernel) : option (outcome resv * ke
       else if (0 <=? c) && (c <=? 3) && (negb (c =? 1) || k_cap_admin k || k_cap_nice k)
            then Some (Val RNone, kupd pid (set_ioprio (c * 8192 + lvl)) k)
       else None
-    (* cpu_affinity([]) selects all eligible CPUs *)
-    | Affinity (Some []) => Some (Val RNone, kupd pid (set_mask (p_elig p)) k)
-    | Affinity (Some cpus) =>
-      if all_in cpus (p_elig p)     (* a non-empty list of eligible CPUs, duplicates allowed: exactly that set *)
-      then Some (Val RNone, kupd pid (set_mask (filter (fun c => memz c cpus) (p_elig p))) k)
-      else if none_in cpus (p_elig p) then same (Exc ValueError)   (* only nonexistent / ineligible CPUs *)
-      else None
+    (* cpu_affinity([]) selects all eligible CPUs; a non-empty list of eligible CPUs: exactly that set *)
+    | Affinity (Some cpus) => spec_aff_set pid p cpus k
+    (* any iterable: what counts is what it yields (once).  An EMPTY one-shot iterator is not
+       "the empty list" of the text (it is truthy): nothing demanded *)
+    | AffinityIt sh items =>
+      if oneshot sh && match items with [] => true | _ => false end then None else spec_aff_set pid p items k
     | Rlimit res (Some l) =>
       match l with
       | [s; h] =>
